@@ -25,16 +25,30 @@ def om2_joins_inequivalent_sites(calc):
     return any(calc.kineticsvWyckoff[a][0] != calc.kineticsvWyckoff[b][0] for (a, b) in calc.om2_SP)
 
 
+EXCLUDE_R41 = "R41" in known_ids("known")
+
+
+def low_symmetry_orbit(calc):
+    """region of known finding R41: a single Wyckoff set of three or more sites whose stabiliser has order <= 4"""
+    n = sum(len(w) for w in calc.sitelist)
+    return len(calc.sitelist) == 1 and n >= 3 and len(calc.crys.G) <= 4 * n
+
+
 @st.composite
 def cases(draw):
+    why = "R13"
     for _ in range(3):
         setup = draw(vs.setups(originstates="no" if EXCLUDE_R11 else "any"))
         crys, sl, jn, calc = vs.calculator(setup)
+        if EXCLUDE_R41 and low_symmetry_orbit(calc):
+            why = "R41"
+            continue
         if not (EXCLUDE_R13 and om2_joins_inequivalent_sites(calc)):
             break
+        why = "R13"
         setup["_r13"] = True
     else:
-        setup = {"recipe": cs.CATALOGUE["HCP"], "chem": 0, "k": 1, "closest": 0, "Nthermo": 1, "redrawn": "R13"}
+        setup = {"recipe": cs.CATALOGUE["HCP"], "chem": 0, "k": 1, "closest": 0, "Nthermo": 1, "redrawn": why}
         crys, sl, jn, calc = vs.calculator(setup)
     setup.pop("_r13", None)
     data = draw(vs.datasets(calc))
@@ -63,6 +77,8 @@ def check(case):
     classes = cs.describe(crys) + vs.describe(calc, data) + (["om2_joins_inequivalent_sites"] if r13 else []) + ["time_unit_1e%d" % u]
     if case["setup"].get("redrawn") == "R13":
         classes.append("excluded_R13_redrawn")
+    if case["setup"].get("redrawn") == "R41":
+        classes.append("excluded_R41_redrawn")
     if case["setup"].get("redrawn") == "originstates":
         classes.append("excluded_R11_redrawn")
     ref = calc.Lij(*vs.args(scaled(data, 1e9)))
